@@ -357,6 +357,7 @@ pub fn asan_lane<P: Prop>(tier: Tier, seed: u64, agg: &mut Aggregate) -> Option<
         .args(["supervise", P::ID, "--tier", "quick", "--seed", &seed.to_string()])
         .env("TUVERIF_DIR", &sub)
         .env("TUVERIF_NO_EXTRA", "1")
+        .env("TUVERIF_HANG_FACTOR", "8")
         .env("TUVERIF_SCALE", "0.25")
         .env(
             "ASAN_OPTIONS",
